@@ -352,6 +352,17 @@ def _r7(chk: Check, R7: str) -> None:
             chk.require(okb, R7, 'exception class %s' % q, '%s:%d' % (ci.module.rel, ci.node.lineno),
                         'derives from Exception' if okb else 'derives from %s but not from Exception' % ', '.join(eb))
             found = found or not okb
+            # ... and an ordinary one: the interpreter and contextlib assign __traceback__ / __context__ to an exception in flight
+            # (a generator-based context manager does it to every exception that passes through it); a class that refuses
+            # attribute assignment turns the error into FrozenInstanceError / AttributeError at that point
+            frozen = any(isinstance(d, ast.Call) and norm(d.func).rsplit('.', 1)[-1] == 'dataclass' and any(
+                k.arg == 'frozen' and isinstance(k.value, ast.Constant) and k.value.value is True for k in d.keywords) for d in ci.node.decorator_list)
+            refuses = frozen or '__setattr__' in ci.methods
+            chk.require(not refuses, R7, 'exception class %s accepts attribute assignment' % q, '%s:%d' % (ci.module.rel, ci.node.lineno),
+                        ('a frozen dataclass' if frozen else 'defines __setattr__') + ': setting __traceback__ on an instance in flight (contextlib does, '
+                        'around every lambda call through make_scope) raises FrozenInstanceError instead of the ParserError' if refuses else
+                        'plain exception object')
+            found = found or refuses
     if chk.tier == 'thorough':
         for mn, cls, fns in (('smartquery.ply.yacc', 'LRParser', ('parseopt_notrack', 'parse')),
                              ('smartquery.ply.yacc', None, ('call_errorfunc',)),
